@@ -246,8 +246,9 @@ impl<F: Write + Seek> Allocator<F> {
         // If there's an existing free sector, use that.
         if let Some(free_sector_idx) = self.free_sectors.pop() {
             let sector_id = free_sector_idx;
-            self.set_fat(sector_id, consts::END_OF_CHAIN)?;
+            // Initialize the sector before the FAT claims it (see below).
             self.sectors.init_sector(sector_id, init)?;
+            self.set_fat(sector_id, consts::END_OF_CHAIN)?;
             return Ok(sector_id);
         }
         // Otherwise, we need a new sector; if there's no room in the FAT to
@@ -257,10 +258,12 @@ impl<F: Write + Seek> Allocator<F> {
         if self.fat.len() % fat_entries_per_sector == 0 {
             self.append_fat_sector()?;
         }
-        // Add a new sector to the end of the file and return it.
+        // Add a new sector to the end of the file and return it.  The sector
+        // is written before the FAT claims it: if writing it fails, the FAT
+        // must not describe a sector that the file doesn't have.
         let new_sector = self.fat.len() as u32;
-        self.set_fat(new_sector, consts::END_OF_CHAIN)?;
         self.sectors.init_sector(new_sector, init)?;
+        self.set_fat(new_sector, consts::END_OF_CHAIN)?;
         Ok(new_sector)
     }
 
